@@ -31,7 +31,8 @@ take precedence on the way to the PHY, since then) -- start with LGOOD_n, LCRD_A
 with n = 7 after power-on and after any USB reset since the last U0 (Hot Reset handshake completed, Warm Reset signalling, VBUS
 loss), else the number of the last header accepted; no link command while `trained` is low; the advertisement completes within
 200 PHY-ready cycles; afterwards headers numbered from the advertisement are acknowledged with their number and delivered
-unchanged on `header_source`, nothing accepted before the outage is offered, and the link stays in U0.
+unchanged on `header_source`, nothing accepted before the outage is offered, and the link stays in U0.  A link that does not
+train or re-train at all (the host script times out in a training phase) is a harness error, not a C38 verdict.
 
 Scenario: {"engine": "usb3_link_layer", "config": {"ready": [...], "queue_ready": [...], "ff": [k, ...] | None, "lfps_gap": n,
 "hot_extra": n}, "ops": [...]} with ops
@@ -102,9 +103,15 @@ def _tseq_counter(frag):
             for sig in stmt._lhs_signals():
                 if sig.name == "sent_ordered_sets":
                     if (1 << len(sig)) != TSEQ_SETS:
-                        raise RuntimeError("unexpected TSEQ burst length")
+                        raise FastForwardUnavailable("unexpected TSEQ burst length")
                     return sig
-    raise RuntimeError("TSEQ emitter counter not found")
+    raise FastForwardUnavailable("TSEQ emitter counter not found")
+
+
+class FastForwardUnavailable(Exception):
+    """ The simulation fast-forward relies on one internal register of the TSEQ emitter (found by name). If a refactoring
+    renames it, the composed scenarios that need the fast-forward are skipped (and counted) rather than reported as a
+    harness error or -- worse -- as a verdict; scenarios that play the full burst (thorough tier) still run. """
 
 
 def link_layer_bench():
@@ -176,7 +183,6 @@ class LinkLayerHost:
         self.expect_down = False
         self.reset_since_u0 = True             # power-on
         self.reset_kind = "power_on"
-        self.hot_reset_echoed = False
         self.n_ready_cycles = 0
         self._ready_now = 1
         self.qready_now = 0
@@ -348,7 +354,6 @@ class LinkLayerHost:
         lim = 6000
         yield from self._wait(lambda: self.device_sending() in ("TS2", "TS2_RESET"), lim, "device sending TS2", ts1())
         if reset:
-            self.hot_reset_echoed = False
             yield from self._wait(lambda: self.device_sending() == "TS2_RESET", lim, "device sending TS2 with Reset (Hot Reset.Active)",
                                   ts2(TS_RESET))
             # the device has entered Hot Reset: this is a USB reset
@@ -672,22 +677,23 @@ class LinkLayerHost:
                     elif (data >> 16) == 0x4545:
                         if (data >> 8) & TS_RESET:
                             self.last_ts = ("TS2_RESET", self.n_words)
-                            self.hot_reset_echoed = True
                         else:
                             self.last_ts = ("TS2", self.n_words)
                 self._prev_word = (data, ctrl)
-                if not self.seg.mid_item:
-                    self._item_tp = since
-                self.seg.push(t, data, ctrl)
-                while self._seen_items < len(self.seg.items):
-                    it = self.seg.items[self._seen_items]
-                    self._seen_items += 1
-                    it["tp"] = self._item_tp
-                    it["free_t"] = self._lc_free_t
-                    self._on_item(t, it)
-                if len(self.seg.items) > 64:
-                    del self.seg.items[:]
-                    self._seen_items = 0
+                # (training-set and logical-idle words outside a framed item are of no interest to the segmenter)
+                if self.seg.mid_item or (ctrl == 0xF and data != COMW[0]):
+                    if not self.seg.mid_item:
+                        self._item_tp = since
+                    self.seg.push(t, data, ctrl)
+                    while self._seen_items < len(self.seg.items):
+                        it = self.seg.items[self._seen_items]
+                        self._seen_items += 1
+                        it["tp"] = self._item_tp
+                        it["free_t"] = self._lc_free_t
+                        self._on_item(t, it)
+                    if len(self.seg.items) > 64:
+                        del self.seg.items[:]
+                        self._seen_items = 0
         else:
             self._pres = None
         # ---- header_source ----
